@@ -69,7 +69,8 @@ def subtree(tree, rel):
     return cur
 
 
-TARGETS = ['beside', 'owndir', 'parent', 'root', 'self', 'outside', 'above1', 'above2', 'file', 'dangling', 'chain', 'chain2', 'chain3', 'enotdir']
+TARGETS = ['beside', 'owndir', 'parent', 'root', 'self', 'outside', 'above1', 'above2', 'file', 'dangling', 'chain', 'chain2', 'chain3', 'enotdir',
+           'prefixsib', 'prefixsib-rev']
 
 
 def decorate(tree, ldir, target, spelling):
@@ -116,6 +117,22 @@ def decorate(tree, ldir, target, spelling):
         # link -> link (outside the searched tree) [-> link] -> directory reachable in no other way
         name = 'cl' if target == 'chain2' else 'cl3'
         rel, ab = up + '../../' + name, os.path.normpath(os.path.join(ROOT, '../../' + name))
+    elif target in ('prefixsib', 'prefixsib-rev'):
+        # a sibling directory whose path is a textual prefix of the link's directory (d next to d3) without being an
+        # ancestor of it - and the other way round
+        if not ldir:
+            return None
+        pdir, last = os.path.split(ldir)
+        par = subtree(t, pdir)
+        short = last[:1]
+        if short == last or short in par:
+            return None
+        par[short] = D({'ps': F(1), 'pd': D({'pf': F(1)})})
+        if target == 'prefixsib':
+            rel, ab = '../' + short, os.path.join(ROOT, pdir, short)
+        else:
+            here = par[short]['c']
+            rel, ab = '../' + last, os.path.join(ROOT, ldir)
     here['L'] = L(rel if spelling == 'rel' else ab)
     return t
 
